@@ -8,6 +8,7 @@ import (
 	"github.com/go-i2p/common/key_certificate"
 	"github.com/go-i2p/common/lease"
 	sig "github.com/go-i2p/common/signature"
+	"github.com/go-i2p/crypto/dsa"
 	elgamal "github.com/go-i2p/crypto/elg"
 	"github.com/go-i2p/crypto/types"
 	"github.com/samber/oops"
@@ -54,6 +55,9 @@ func validateLeaseSetKeys(ls *LeaseSet) error {
 	if len(ls.encryptionKey.Bytes()) != LEASE_SET_PUBKEY_SIZE {
 		return oops.Errorf("invalid encryption key size: got %d, expected %d",
 			len(ls.encryptionKey.Bytes()), LEASE_SET_PUBKEY_SIZE)
+	}
+	if _, err := elgamal.NewElgPublicKey(ls.encryptionKey.Bytes()); err != nil {
+		return oops.Errorf("invalid encryption key: %w", err)
 	}
 	if ls.signingKey == nil {
 		return oops.Errorf("signing key is required")
@@ -126,6 +130,10 @@ func validateLeaseSetInputs(dest destination.Destination, encryptionKey types.Re
 	if len(encryptionKey.Bytes()) != LEASE_SET_PUBKEY_SIZE {
 		return oops.Errorf("invalid encryption key size")
 	}
+	// the parser constructs the key with NewElgPublicKey, which rejects values outside [2, p-2]
+	if _, err := elgamal.NewElgPublicKey(encryptionKey.Bytes()); err != nil {
+		return oops.Errorf("invalid encryption key: %w", err)
+	}
 
 	// Validate lease count
 	if len(leases) > LEASE_SET_MAX_LEASES {
@@ -185,6 +193,10 @@ func validateNullCertSigningKey(signingKey types.SigningPublicKey) error {
 	if len(signingKey.Bytes()) != LEASE_SET_SPK_SIZE {
 		return oops.Errorf("invalid signing key size for NULL certificate: got %d, expected %d",
 			len(signingKey.Bytes()), LEASE_SET_SPK_SIZE)
+	}
+	// the parser constructs the key with NewDSAPublicKey, which rejects values outside [2, p-1]
+	if _, err := dsa.NewDSAPublicKey(signingKey.Bytes()); err != nil {
+		return oops.Errorf("invalid signing key for NULL certificate: %w", err)
 	}
 	return nil
 }
